@@ -250,6 +250,12 @@ pub fn str_starts_with(s: &str, pat: &str) -> (r: bool)
     ensures r == (pat@.len() <= s@.len() && s@.take(pat@.len() as int) == pat@)
 { s.starts_with(pat) }
 
+// str::starts_with(char) (R31)
+#[verifier::external_body]
+pub fn str_starts_with_char(s: &str, c: char) -> (r: bool)
+    ensures r == (s@.len() > 0 && s@[0] == c)
+{ s.starts_with(c) }
+
 // ---- String comparison / hashing (A4): uninterpreted functions of the two texts
 pub uninterp spec fn text_order(a: Seq<char>, b: Seq<char>) -> core::cmp::Ordering;
 #[verifier::external_body]
